@@ -60,6 +60,8 @@ func run(r *lib.Run) {
 		"inproc.lookup.cas.http-ac-GETZ.hit", "inproc.lookup.ac.grpc-get.miss",
 		"evict.victim-evicted-others-strict",
 		"binary.lookup.ac.grpc-get.hit",
+		"inproc.nearmiss-instance.mangle.hit", "inproc.nearmiss-instance.mangle.miss", "inproc.nearmiss-instance.plain.hit",
+		"binary.nearmiss-instance.mangle.hit", "binary.nearmiss-instance.mangle.miss",
 	}
 	for _, k := range need {
 		if !on(strings.SplitN(k, ".", 2)[0]) {
@@ -99,7 +101,13 @@ func parallel(n, workers int, f func(i int)) {
 
 func pickInsts(rng *rand.Rand, nClean int, grpcOnly bool) []instInfo {
 	out := []instInfo{{"", "none", true}}
-	if rng.IntN(2) == 0 {
+	if rng.IntN(3) == 0 {
+		// long names that agree on their first 32..255 bytes
+		fam := nearMissFamily(rng)
+		for i := 0; i < nClean && i < len(fam); i++ {
+			out = append(out, fam[i])
+		}
+	} else if rng.IntN(2) == 0 {
 		fam := lib.Pick(rng, instFamilies)
 		perm := rng.Perm(len(fam))
 		for i := 0; i < nClean && i < len(fam); i++ {
@@ -559,15 +567,19 @@ func runBinary(r *lib.Run) {
 		return
 	}
 	per := r.N(12, 150)
-	for ci, c := range []struct{ mangle, validated bool }{{true, true}, {true, false}, {false, true}, {false, false}} {
+	for ci, c := range []struct{ mangle, validated, asset bool }{{true, true, false}, {true, false, false}, {false, true, true}, {false, false, false}} {
 		args := []string{}
+		if c.asset {
+			// an unrelated switch next to the mangling one in the gRPC wiring
+			args = append(args, "--experimental_remote_asset_api")
+		}
 		if c.mangle {
 			args = append(args, "--enable_ac_key_instance_mangling")
 		}
 		if !c.validated {
 			args = append(args, "--disable_http_ac_validation")
 		}
-		cfg := fmt.Sprintf("binary mangle=%v http=%s", c.mangle, map[bool]string{true: "validated(ac)", false: "unvalidated(raw)"}[c.validated])
+		cfg := fmt.Sprintf("binary mangle=%v http=%s asset-api=%v", c.mangle, map[bool]string{true: "validated(ac)", false: "unvalidated(raw)"}[c.validated], c.asset)
 		// The machine is shared: a port picked as free may be taken by somebody
 		// else before the binary binds it. Retry with fresh ports.
 		var child *lib.Child
